@@ -78,13 +78,30 @@ class Space:
 
 # ----------------------------------------------------------------------------- body scan
 
+def names_of_target(t, out=None):
+    out = set() if out is None else out
+    if isinstance(t, ast.Name):
+        out.add(t.id)
+    elif isinstance(t, (ast.Tuple, ast.List)):
+        for e in t.elts:
+            names_of_target(e, out)
+    elif isinstance(t, ast.Starred):
+        names_of_target(t.value, out)
+    return out
+
+
 class Scan(ast.NodeVisitor):
+    """assignments / reads in a loop body; `own` = at this loop level, `nested` = inside inner for-loops"""
+
     def __init__(self, body):
         self.assigned = set()
-        self.aug = {}            # name -> list of (op, value node)
-        self.reads = {}          # name -> number of loads outside its own AugAssign target position
+        self.aug = {}            # name -> list of (op, value node) at this level
+        self.aug_nested = {}     # name -> list of (op, value node) inside nested loops
+        self.assigned_nested = set()
+        self.reads = {}          # name -> number of loads
         self.has_break = False
         self.has_return = False
+        self.depth = 0
         for st in body:
             self.visit(st)
 
@@ -94,33 +111,43 @@ class Scan(ast.NodeVisitor):
         self.visit(n.value)
 
     def _target(self, t):
-        if isinstance(t, ast.Name):
-            self.assigned.add(t.id)
-        elif isinstance(t, (ast.Tuple, ast.List)):
-            for e in t.elts:
-                self._target(e)
+        if isinstance(t, (ast.Name, ast.Tuple, ast.List, ast.Starred)):
+            (self.assigned if self.depth == 0 else self.assigned_nested).update(names_of_target(t))
+            for sub in ast.walk(t):
+                if isinstance(sub, (ast.Subscript, ast.Attribute)):
+                    self.visit(sub)
         else:
             self.visit(t)
 
     def visit_AugAssign(self, n):
         if isinstance(n.target, ast.Name):
-            self.aug.setdefault(n.target.id, []).append((type(n.op).__name__, n.value))
+            (self.aug if self.depth == 0 else self.aug_nested).setdefault(n.target.id, []).append((type(n.op).__name__, n.value))
         else:
             self.visit(n.target)
         self.visit(n.value)
 
     def visit_For(self, n):
-        self._target(n.target)
         self.visit(n.iter)
+        self.depth += 1
+        self._target(n.target)
         for st in n.body + n.orelse:
             self.visit(st)
+        self.depth -= 1
+
+    def visit_While(self, n):
+        self.visit(n.test)
+        self.depth += 1
+        for st in n.body + n.orelse:
+            self.visit(st)
+        self.depth -= 1
 
     def visit_Name(self, n):
         if isinstance(n.ctx, ast.Load):
             self.reads[n.id] = self.reads.get(n.id, 0) + 1
 
     def visit_Break(self, n):
-        self.has_break = True
+        if self.depth == 0:
+            self.has_break = True
 
     def visit_Return(self, n):
         self.has_return = True
@@ -326,6 +353,11 @@ class SymSeq:
     def __aovc_array__(self, it, dt):
         probe = self.element(it, z3.Int(fresh_name("p")))
         n = self.length()
+        res = self._as_array(it, dt, probe, n)
+        res.symseq = self
+        return res
+
+    def _as_array(self, it, dt, probe, n):
         if is_scalar(probe):
             return Arr([n], lambda idx: self.element(it, idx[0]), dt or "float")
         if isinstance(probe, (list, tuple)) and all(is_scalar(v) for v in probe):
@@ -386,16 +418,21 @@ def summarise_for(it, s, fr, iterable):
     scope.ordinal = ordinal
     env = fr.env
     # classify loop-carried names
-    target_names = set()
-    Scan._target(type("T", (), {"assigned": target_names, "visit": lambda self, n: None})(), s.target)
+    target_names = names_of_target(s.target)
     accs, counters, temps = {}, {}, set()
+    inherited = set()          # names only updated inside nested loops: handled by the innermost loop that updates them
     scope.outer_lists = {id(v) for v in env.values() if isinstance(v, list)}
     for v in env.values():
         if isinstance(v, Obj):
             scope.outer_lists |= {id(a) for a in v.attrs.values() if isinstance(a, list)}
-    for name in set(scan.assigned) | set(scan.aug) | target_names:
+    for name in set(scan.aug_nested) - set(scan.aug) - set(scan.assigned) - set(scan.assigned_nested):
+        inherited.add(name)
+    scope.inherited_counters = {}
+    for name in set(scan.assigned) | set(scan.aug) | target_names | (set(scan.assigned_nested) - inherited):
         if name in target_names:
             continue
+        if name in scan.aug_nested and name in scan.aug:
+            raise Unsupported("variable %s is updated both in the loop at line %d and in a nested loop" % (name, s.lineno))
         if name in scan.aug and name not in scan.assigned:
             ops = scan.aug[name]
             if name in env and isinstance(env[name], Arr):
@@ -419,12 +456,16 @@ def summarise_for(it, s, fr, iterable):
     inr = space.inr(k)
     it.ctx.pc.append(z(inr) if not isinstance(inr, bool) else z3.BoolVal(inr))
     pc_mark = len(it.ctx.pc)
+    scope.assumption_mark = len(it.ctx.assumptions)
+    for req in scope.ann.get("requires", []):
+        # an instance, at the generic iteration, of a universally quantified precondition of the function (assumed, not proved)
+        for formula in req(it, [sp.k for sp in scope.vars()]):
+            it.ctx.assumptions.append(formula)
     for lemma in scope.ann.get("lemmas", []):
         for name, formula in lemma(it, [sp.k for sp in scope.vars()]):
             it.ctx.lemma("loop %s#%s: %s" % (fr.qualname, ordinal, name), formula)
     old_generic = getattr(it.ctx, "generic", None)
     it.ctx.generic = scope
-    scope.assumption_mark = len(it.ctx.assumptions)
     old_current = CURRENT[0]
     CURRENT[0] = scope
     scope.acc_names = set(accs)
@@ -573,15 +614,22 @@ def generic_if(it, st, fr):
 
 # ----------------------------------------------------------------------------- assembling the post-loop state
 
+def eff_spaces(scope, eff):
+    return scope.vars() + [sc.space for sc in getattr(eff, "inner", [])]
+
+
 def invert(it, scope, eff, X):
     """K*(X): the iteration that can hit element X, from the index equalities of the effect's region condition"""
-    spaces = scope.vars()
+    spaces = eff_spaces(scope, eff)
     kv = [sp.k for sp in spaces]
-    sc = scope
-    while sc is not None:
-        if sc.ann.get("inverse") is not None:
-            return [zi(t) for t in sc.ann["inverse"](X)]
-        sc = sc.parent
+    for sc in [x for x in getattr(eff, "inner", [])][::-1] + [scope]:
+        cur = sc
+        while cur is not None:
+            if cur.ann.get("inverse") is not None:
+                return [zi(t) for t in cur.ann["inverse"](X)]
+            cur = cur.parent if cur is scope or cur.parent is not None else None
+            if cur is not None and cur in getattr(eff, "inner", []):
+                break
     c = eff.cond(X)
     c = z3.simplify(z(c)) if not isinstance(c, bool) else z3.BoolVal(c)
     conj = list(c.children()) if z3.is_and(c) else [c]
@@ -639,7 +687,7 @@ def assemble(it, s, fr, scope, accs, counters, temps, saved):
         root = effs[0].root
         if lift and scope.parent.is_outer(root):
             # the array lives outside the enclosing generic iteration too: hand the effects up
-            scope.parent.effects.extend([Effect(e.kind, root=e.root, cond=e.cond, val=e.val, guard=e.guard, what=e.what, lineno=e.lineno, inner=(getattr(e, "inner", []) + [scope])) for e in effs])
+            scope.parent.effects.extend([Effect(e.kind, root=e.root, cond=e.cond, val=e.val, guard=e.guard, what=e.what, lineno=e.lineno, inner=([scope] + getattr(e, "inner", []))) for e in effs])
             continue
         kinds = {e.kind for e in effs}
         if kinds == {"store"}:
@@ -659,7 +707,17 @@ def assemble(it, s, fr, scope, accs, counters, temps, saved):
         env[name] = total
     for name, v0 in counters.items():
         v0, c, rank, count, g = scope.counter_names[name]
-        env[name] = r_add(v0, r_mul(c, count))
+        if scope.parent is not None:
+            # inside an enclosing generic iteration the running value after this loop is not modelled; the enclosing loop restores the total
+            scope.parent.inherited_counters[name] = (v0, c, count)
+            env[name] = Poison("counter %s read between nested loops with symbolic trip counts" % name)
+        else:
+            env[name] = r_add(v0, r_mul(c, count))
+    for name, (v0, c, count) in scope.inherited_counters.items():
+        if scope.parent is not None:
+            scope.parent.inherited_counters[name] = (v0, c, count)
+        else:
+            env[name] = r_add(v0, r_mul(c, count))
     for name in temps:
         if name in saved or name in env:
             env[name] = Poison("%s was assigned inside a loop with a symbolic trip count (value after the loop not modelled)" % name)
@@ -729,9 +787,9 @@ def guarded(delta, g, sign, kv, K, it):
     return ite(gg, d, 0) if not (isinstance(gg, bool) and gg) else d
 
 
-def sum_over(it, scope, body_K, label="acc"):
+def sum_over(it, scope, body_K, label="acc", spaces=None):
     """Sigma over the generic iteration space of the scope chain (unit-step ranges only)"""
-    spaces = scope.vars()
+    spaces = spaces if spaces is not None else scope.vars()
     ranges = []
     for sp in spaces:
         if not sp.unit or sp.count is None:
@@ -741,23 +799,27 @@ def sum_over(it, scope, body_K, label="acc"):
 
 
 def apply_stores(it, scope, root, effs):
-    spaces = scope.vars()
-    kv = [sp.k for sp in spaces]
     nd = root.ndim
     X = [z3.Int(fresh_name("x")) for _ in range(nd)]
     new_f = root._f
     for e in effs:
+        spaces = eff_spaces(scope, e)
+        kv = [sp.k for sp in spaces]
         Kstar = invert(it, scope, e, X)
         # soundness of the inverse: any iteration that hits X is K*(X)  (also gives: at most one iteration writes each cell)
         hit = b_and(e.guard, e.cond(X), *[sp.inr(sp.k) for sp in spaces])
         it.ctx.definedness(z3.Implies(z(hit) if not isinstance(hit, bool) else z3.BoolVal(hit), z3.And(*[k == zi(ks) for k, ks in zip(kv, Kstar)])),
                            "loop summary (line %d): the store index is injective over the iterations (inverse map sound)" % e.lineno)
         old = new_f
+        facts = []
+        for sc in [scope] + list(getattr(e, "inner", [])):
+            facts += getattr(sc, "facts", [])
+        facts += getattr(scope, "child_facts", [])
 
-        def f(idx, e=e, old=old, X=X, Kstar=Kstar):
+        def f(idx, e=e, old=old, X=X, Kstar=Kstar, spaces=spaces, kv=kv, facts=facts):
             Ks = [z3.substitute(zi(t), *[(x, zi(i)) for x, i in zip(X, idx)]) for t in Kstar]
             sub = subst_fn(kv, Ks)
-            for fact in getattr(scope, "facts", []) + getattr(scope, "child_facts", []):
+            for fact in facts:
                 inst = sub(fact)
                 key = inst.sexpr()
                 seen = getattr(it.ctx, "_fact_instances", None)
@@ -784,34 +846,38 @@ def apply_stores(it, scope, root, effs):
         new_f = f
     if len(effs) > 1:
         # different store statements may only collide within the same iteration (statement order is then respected)
-        kv2 = [z3.Int(fresh_name("K2")) for _ in kv]
         for a in range(len(effs)):
             for b in range(a + 1, len(effs)):
-                ha = b_and(effs[a].guard, effs[a].cond(X), *[sp.inr(sp.k) for sp in spaces])
-                hb = b_and(effs[b].guard, effs[b].cond(X), *[sp.inr(sp.k) for sp in spaces])
-                hb2 = z3.substitute(z(hb) if not isinstance(hb, bool) else z3.BoolVal(hb), *list(zip(kv, kv2)))
-                it.ctx.definedness(z3.Implies(z3.And(z(ha) if not isinstance(ha, bool) else z3.BoolVal(ha), hb2), z3.And(*[k == k2 for k, k2 in zip(kv, kv2)])),
+                sa_, sb_ = eff_spaces(scope, effs[a]), eff_spaces(scope, effs[b])
+                kva, kvb = [sp.k for sp in sa_], [sp.k for sp in sb_]
+                kv2 = [z3.Int(fresh_name("K2")) for _ in kvb]
+                ha = b_and(effs[a].guard, effs[a].cond(X), *[sp.inr(sp.k) for sp in sa_])
+                hb = b_and(effs[b].guard, effs[b].cond(X), *[sp.inr(sp.k) for sp in sb_])
+                hb2 = z3.substitute(z(hb) if not isinstance(hb, bool) else z3.BoolVal(hb), *list(zip(kvb, kv2)))
+                common = min(len(kva), len(kvb))
+                it.ctx.definedness(z3.Implies(z3.And(z(ha) if not isinstance(ha, bool) else z3.BoolVal(ha), hb2), z3.And(*[k == k2 for k, k2 in list(zip(kva, kv2))[:common]])),
                                    "loop summary (line %d): two store statements collide only within one iteration" % effs[a].lineno)
     root._f = new_f
     root.writes += 1
 
 
 def apply_accs(it, scope, root, effs):
-    spaces = scope.vars()
-    kv = [sp.k for sp in spaces]
     old = root._f
 
     def f(idx, old=old):
         total = old(idx)
         for e in effs:
-            def body(K, e=e):
+            spaces = eff_spaces(scope, e)
+            kv = [sp.k for sp in spaces]
+
+            def body(K, e=e, kv=kv):
                 sub = subst_fn(kv, K)
                 c = b_and(sub(e.guard), sub(e.cond(idx)))
                 if c is False:
                     return 0
                 d = eval_at(it, lambda: e.val(idx), sub)
                 return d if c is True else ite(c, d, 0)
-            total = s_add(total, sum_over(it, scope, body, "acc"))
+            total = s_add(total, sum_over(it, scope, body, "acc", spaces))
         return total
     root._f = npmodel.memo_arr(list(root.shape), f, root.dtype)._f
     root.writes += 1
